@@ -151,10 +151,10 @@ class EdgeLandmark(BaseEdge):
             if np.any(self.offset.to_array() != 0.0):
                 raise NotImplementedError("2-D landmark edges with a non-identity offset cannot be written in .g2o format")
 
-            return "EDGE_SE2_XY {} {} {} {} ".format(self.vertex_ids[0], self.vertex_ids[1], self.estimate[0], self.estimate[1]) + " ".join([str(x) for x in self.information[np.triu_indices(2, 0)]]) + "\n"
+            return "EDGE_SE2_XY {} {} {} {} ".format(self.vertex_ids[0], self.vertex_ids[1], self.estimate[0], self.estimate[1]) + " ".join([str(float(x)) for x in self.information[np.triu_indices(2, 0)]]) + "\n"
 
         if isinstance(self.vertices[0].pose, PoseSE3):
-            return "EDGE_SE3_TRACKXYZ {} {} {} {} {} {} ".format(self.vertex_ids[0], self.vertex_ids[1], self.offset_id, self.estimate[0], self.estimate[1], self.estimate[2]) + " ".join([str(x) for x in self.information[np.triu_indices(3, 0)]]) + "\n"
+            return "EDGE_SE3_TRACKXYZ {} {} {} {} {} {} ".format(self.vertex_ids[0], self.vertex_ids[1], self.offset_id, self.estimate[0], self.estimate[1], self.estimate[2]) + " ".join([str(float(x)) for x in self.information[np.triu_indices(3, 0)]]) + "\n"
         # fmt: on
 
         raise NotImplementedError
